@@ -2,6 +2,8 @@ import MW.Staking.Facts
 import MW.Chain.World
 import MW.Chain.Dispatch
 import MW.Staking.Effects
+import MW.Inv.WorldFlag
+import MW.Inv.Demo
 /-!
 # C10 — Circuit breaker halts all value-moving user operations
 -/
@@ -168,5 +170,53 @@ theorem resume_tx_exact (w : World) (sender : String) (n l r : Nat) (f : Faults)
 /-- non-vacuity: a halted state exists in which a stake with otherwise valid inputs is refused -/
 example : ∃ e, execute { (default : CState) with config := { (default : Config) with stopped := true } }
     default { sender := "x", funds := [⟨"", 5⟩] } (.liquidStake none none none) = .error e := ⟨.halted, rfl⟩
+
+/-- whatever message succeeds, for whatever sender: the halted flag afterwards is set by CircuitBreaker, cleared by
+ResumeContract and unchanged by every other message (UpdateConfig with any sections included) -/
+theorem flag_changes_only_by (s s' : CState) (env : Env) (info : Info) (m : ExecMsg) (out : List SubMsg)
+    (h : execute s env info m = .ok (s', out)) :
+    s'.config.stopped = (match m with
+      | .circuitBreaker => true
+      | .resumeContract .. => false
+      | _ => s.config.stopped) := by
+  have := execute_stopped h
+  cases m <;> exact this
+
+/-- callbacks and replies never touch the flag (nor any other part of the configuration) -/
+theorem callbacks_keep_config (s s' : CState) (out : List SubMsg) :
+    (∀ id res, reply s id res = .ok (s', out) → s'.config = s.config)
+    ∧ (∀ m, sudo s m = .ok (s', out) → s'.config = s.config) :=
+  ⟨fun _ _ h => reply_config h, fun _ h => sudo_config h⟩
+
+/-- **every event of the chain model** (a transaction by anybody with any funds, message and faults, an ibc-hooks
+delivery, an acknowledgement, a timeout, a stray callback, a donation, a clock advance): the flag afterwards is what
+the event itself defines -/
+theorem C10_flag_step (w : World) (e : Event) : (step w e).w.c.config.stopped = flagAfter w e := step_flag w e
+
+/-- **every history**: the contract is halted after a history exactly when the history says so — it starts halted,
+each committed CircuitBreaker halts it, each committed ResumeContract resumes it, nothing else changes it.  With
+`halted_tx_without_effect` / `halted_hook_without_effect` this is the first sentence of the property for whole
+executions: from instantiation until the first committed ResumeContract, and after every committed CircuitBreaker
+until the next committed ResumeContract, none of the six operations has any effect. -/
+theorem C10_flag_history {env : Env} {info : Info} {msg : InstantiateMsg} {c0 : CState} {out : List SubMsg}
+    (hi : instantiate env info msg = .ok (c0, out)) (self pfx : String) (t hgt : Nat) (evs : List Event) :
+    (runW (bootWorld c0 self pfx t hgt) {} evs).1.c.config.stopped = histFlagV true (bootWorld c0 self pfx t hgt) evs :=
+  world_history_flag hi self pfx t hgt evs
+
+/-! non-vacuity (tests of the statement on the demo history): halted before the first event, running after the
+resume that opens the demo history and through all its transactions, halted again after a monitor-less admin
+CircuitBreaker appended to it, and an UpdateConfig in between changes nothing -/
+section Demo
+open MW.Chain.Demo
+#guard (demoBoot.map fun w => histFlagV true w []) == some true
+#guard (demoBoot.map fun w => histFlagV true w demoEvents) == some false
+#guard (demoBoot.map fun w => (runW w {} demoEvents).1.c.config.stopped) == some false
+#guard (demoBoot.map fun w => histFlagV true w (demoEvents ++ [.exec demoAdmin [] .circuitBreaker {} (some 0),
+          .exec demoAdmin [] (.updateConfig none none none none (some 100)) {} (some 0)])) == some true
+#guard (demoBoot.map fun w =>
+          let c := (runW w {} (demoEvents ++ [.exec demoAdmin [] .circuitBreaker {} (some 0),
+            .exec demoAdmin [] (.updateConfig none none none none (some 100)) {} (some 0)])).1.c.config
+          (c.stopped, c.batchPeriod)) == some (true, 100)
+end Demo
 
 end MW.Props.C10
